@@ -10,15 +10,7 @@ from common import args, isolate_models, Report
 A = args()
 isolate_models(["tx2"])
 R = Report("(1) klen 50..130 x 9 worker counts, partition probe; (2) real processes on kernels of 50..66 lines x 6 worker counts; distinct = distinct (klen, workers)", exhaustive=False)
-import types
-fake_main = types.ModuleType("__main__")
-class _Reg:
-    @staticmethod
-    def replay(f): return f
-sys.modules["__main__"].replay = lambda f: f
-import importlib.util
-spec = importlib.util.spec_from_file_location("more", os.path.join(os.path.dirname(os.path.abspath(__file__)), "..", "replay", "more.py"))
-more = importlib.util.module_from_spec(spec); spec.loader.exec_module(more)
+from replay import probe as more
 
 for klen in range(50, 131):
     for n in (1, 2, 3, 5, 7, 16, 17, 64, 200):
